@@ -78,7 +78,7 @@ func c16Check(cs c16Case) string {
 }
 
 func c16Ranges(c *core.Collector, x *Ctx) {
-	c.Rule = "pure range computation: EXHAUSTIVE for file sizes 1..Smax — every subset of received bytes, as maximal chunks, as single-byte chunks and as one random split, in ascending, descending and random arrival order; random files up to 2^20 bytes with up to 255+ gaps (gaps at start / middle / end, adjacent chunks, single-byte gaps). distinct by hash of (size, chunks)"
+	c.Rule = "pure range computation: EXHAUSTIVE for file sizes 1..Smax — every subset of received bytes, as maximal chunks, as single-byte chunks and as one random split, in ascending, descending and random arrival order; random files up to 2^20 bytes with up to 255+ gaps (gaps at start / middle / end, adjacent chunks, single-byte gaps), chunks received twice, and the same structures moved to offsets / sizes around 2^31 and 2^32-1. distinct by hash of (size, chunks)"
 	run := func(cs c16Case, nt bool) {
 		c.Eval()
 		var bad string
@@ -182,12 +182,51 @@ func c16Ranges(c *core.Collector, x *Ctx) {
 			sh[q] = chunks[w]
 		}
 		run(c16Case{"c16", uint32(size), sh}, true)
+		if len(sh) > 0 && it%6 == 0 { // a chunk received twice (same offset, same length), at a random later position
+			d := sh[r.Intn(len(sh))]
+			at := r.Intn(len(sh) + 1)
+			dup := append(append(append([]ref.Range{}, sh[:at]...), d), sh[at:]...)
+			run(c16Case{"c16", uint32(size), dup}, true)
+			c.Count("cases_with_a_chunk_received_twice", 1)
+		}
+		if it%8 == 0 && size <= 4096 {
+			// the same structure moved to the top of the 32-bit range: one big received block [0,B) (in 1..3 pieces, in any
+			// order relative to the rest) followed by the small pattern at B.. — offsets and lengths around 2^31 and 2^32
+			B := core.Pick(r, []uint32{1<<31 - 8, 1<<31 - 1, 1 << 31, 1<<31 + 5, 3 << 30, 0xffffffff - uint32(size)})
+			var big []ref.Range
+			switch r.Intn(4) {
+			case 0: // [0,B) entirely missing
+			case 1:
+				big = []ref.Range{{Off: 0, Len: B}}
+			case 2:
+				h := B / 2
+				big = []ref.Range{{Off: h, Len: B - h}, {Off: 0, Len: h}}
+			default: // a hole in the middle of the big block
+				h := B / 3
+				big = []ref.Range{{Off: 0, Len: h}, {Off: 2 * h, Len: B - 2*h}}
+			}
+			moved := append([]ref.Range{}, big...)
+			for _, k := range sh {
+				moved = append(moved, ref.Range{Off: k.Off + B, Len: k.Len})
+			}
+			if r.Bool() {
+				for q, w := range r.Perm(len(moved)) {
+					if q < w {
+						moved[q], moved[w] = moved[w], moved[q]
+					}
+				}
+			}
+			run(c16Case{"c16", B + uint32(size), moved}, true)
+			c.Count("cases_with_offsets_beyond_2^31", 1)
+		}
 		if it%5000 == 0 && c.WantSample() && len(sh) < 12 {
 			c.Sample(map[string]any{"size": size, "chunks": sh, "missing": ref.MissingRanges(uint32(size), sh)})
 		}
 	})
 	c.Sample(map[string]any{"size": 10, "chunks": []ref.Range{{Off: 2, Len: 3}, {Off: 6, Len: 1}}, "missing": ref.MissingRanges(10, []ref.Range{{Off: 2, Len: 3}, {Off: 6, Len: 1}})})
 	c.Floor("exhaustive_max_size", 10)
+	c.Floor("cases_with_offsets_beyond_2^31", 100)
+	c.Floor("cases_with_a_chunk_received_twice", 100)
 }
 
 func c16Sessions(c *core.Collector, x *Ctx) {
